@@ -533,16 +533,11 @@ def replay_rx(cex):
     rx, how = live_patterns()[name]
     call = getattr(rx, how)
     pre, suf = rx_probe_inputs(name)
-    best = None
-    for suffix in (suf, '', '\x00', '"', ')', '\n'):
-        ts = rxamb.time_pump(call, pre, pump, suffix, ns=(12, 14, 16, 18, 20))
-        growth = [b / a for a, b in zip(ts, ts[1:]) if a > 1e-4]
-        if len(ts) >= 3 and growth and min(growth[-2:]) >= 1.8 and ts[-1] > 0.05:
-            best = (suffix, ts)
-            break
-    if best:
-        return False, 'pattern %s: matching %r + %r*n + %r takes %s s for n=12,14,.. (at least doubling per step)' % (
-            name, pre, pump, best[0], ['%.3f' % t for t in best[1]])
+    for suffix in (suf, '\x00', '"', ')', '\n', ''):
+        ts = rxamb.time_pump(call, pre, pump, suffix)
+        if rxamb.blows_up(ts):
+            return False, 'pattern %s: matching %r + %r*n + %r takes %s (time multiplies per step: exponential backtracking)' % (
+                name, pre, pump, suffix, ['n=%d: %.3fs' % (n, t) for n, t in ts[-4:]])
     return True, 'pump %r does not blow up on the real pattern (ambiguity not reachable from a failing match)' % pump
 
 
